@@ -42,6 +42,9 @@ func main() {
 		stride = 1
 	}
 	for _, f := range fieldsRunC01Full {
+		if r.ObsMode() {
+			break // the full-domain pass only calls pure-Go element code; not part of the configuration comparison
+		}
 		f := f
 		r.Group(f.name+"/full", func() { f.run(r, f.name+"/full", stride) })
 	}
